@@ -341,6 +341,30 @@ func runCompressor(c *Check, p *Program, hc bool) *compResult {
 	if fn == nil {
 		return nil
 	}
+	// The body of the compressor may have been moved into a method of its own, leaving the table preparation and the
+	// recovering defer in CompressBlock: the prover then works on the body (same parameter names), and the recover is
+	// looked for in the wrapper, in front of the call.
+	wrapperRecovers := false
+	if body, call := compressorBodyOf(fn); body != nil {
+		c.Funcs[fname(body)] = true
+		allInstrs(fn, func(in ssa.Instruction) {
+			d, ok := in.(*ssa.Defer)
+			if !ok {
+				return
+			}
+			covers := (d.Block() == call.Block() && idxOf(d) < idxOf(call)) || (d.Block() != call.Block() && d.Block().Dominates(call.Block()))
+			if t := deferTarget(d); t != nil && covers {
+				for _, f := range withAnon(t) {
+					allInstrs(f, func(j ssa.Instruction) {
+						if _, isRec := isBuiltinCall(j, "recover"); isRec {
+							wrapperRecovers = true
+						}
+					})
+				}
+			}
+		})
+		fn = body
+	}
 	h := &compHooks{hc: hc, name: name, boundV: findBoundCall(fn)}
 	coll := newCollector()
 	var roots []string
@@ -357,7 +381,7 @@ func runCompressor(c *Check, p *Program, hc bool) *compResult {
 	if res.trouble != "" {
 		c.TroubleF("%s: %s", name, res.trouble)
 	}
-	if hc && !g.recovers {
+	if hc && !g.recovers && !wrapperRecovers {
 		c.Fail("R11.3", name+"#recover", p.Pos(fn.Pos()), "the HC compressor turns index panics into an error (deferred recover)", "no deferred recover found: an undersized destination would panic")
 	}
 	c.Extra["rounds_"+name] = res.rounds
@@ -1342,4 +1366,47 @@ func decoderBodyOf(fn *ssa.Function) (*ssa.Function, map[string]bool, bool) {
 		}
 	}
 	return body, clipped, nonEmpty
+}
+
+
+// compressorBodyOf: CompressBlock reduced to a wrapper around one large unexported method of the same receiver that
+// is handed the wrapper's slice parameters under the same names. Returns that method and the call, or nil.
+func compressorBodyOf(fn *ssa.Function) (*ssa.Function, *ssa.Call) {
+	if len(fn.Blocks) > 16 {
+		return nil, nil
+	}
+	var body *ssa.Function
+	var at *ssa.Call
+	n := 0
+	for _, ci := range callsIn(fn) {
+		call, isCall := ci.(*ssa.Call)
+		g := staticCallee(ci)
+		if !isCall || g == nil || !inModule(g) || g.Pkg != fn.Pkg || recvTypeName(g) != recvTypeName(fn) || recvTypeName(g) == "" || len(g.Blocks) < 20 {
+			continue
+		}
+		if g.Object() != nil && g.Object().Exported() {
+			continue
+		}
+		n++
+		body, at = g, call
+	}
+	if n != 1 || len(callSitesOf(body)) != 1 {
+		return nil, nil
+	}
+	// the slices are handed on under their own names
+	slices := 0
+	for i, a := range at.Call.Args {
+		if !isSliceType(a.Type()) {
+			continue
+		}
+		prm, isP := a.(*ssa.Parameter)
+		if !isP || i >= len(body.Params) || body.Params[i].Name() != prm.Name() {
+			return nil, nil
+		}
+		slices++
+	}
+	if slices < 2 {
+		return nil, nil
+	}
+	return body, at
 }
